@@ -132,3 +132,15 @@ claim("C16", "exploration",
       "Generated models with 2-6 alias equations (chains, positive/negative links, canonicals among states, inputs, derivatives and algebraics) whose members carry random min/max/nominal/fixed/start are simplified with detect_aliases; for every class the canonical variable's bounds must be the sign-adjusted intersection, its nominal the maximum, fixed the disjunction, and its start its own or an alias's sign-adjusted explicit start.",
       "the choice of canonical variable is the implementation's; any member's explicit start is accepted when the canonical has none",
       "DESIGN.md section 4, C16")
+
+claim("C19", "exploration",
+      "differential monitor at the transfer_model boundary: fresh compile vs pickle-cache load vs code-generated load (fresh subprocess per loader)",
+      "Generated models (parameter-dependent attributes, alias equations, delays, string parameters, loops, functions) under 7 option sets: a fresh compile is compared with the CachedModel returned by a second transfer_model(cache=True) and, for a subset, with models loaded from code-generated shared libraries in fresh subprocesses - variable lists (names, order, shapes, python types, aliases, attributes at 5 parameter points), string parameters/constants, outputs, delay states, alias relation, the four functions at 5 typed points and the delay arguments of the model object. The number of actual cache loads is a required monitor.",
+      "cache=True forces expand_mx, so its reference is a fresh compile with expand_mx; evaluation points are deterministic functions of symbol names",
+      "DESIGN.md section 4, C19")
+
+claim("C20", "exploration",
+      "history monitor at the transfer_model boundary with a logical modification-time clock and the uncached compile of the current sources as executable model",
+      "Random histories of edits to the model file, to a library file, additions of a library file in a sub-folder, option flips (every simplification/representation option has something to act on in the model), version changes and transfer_model calls (pickle cache in-process; code generation with one subprocess per step); after every transfer the result is compared with an uncached compile of the current sources and options. Every edit gets a logical mtime strictly later than the cache.",
+      "equal modification times are never generated; a changed library path always comes with files newer than the cache",
+      "DESIGN.md section 4, C20")
